@@ -142,6 +142,12 @@ theorem setstate_injective_code (s₁ s₂ : Spec.DevState) (h₁ : s₁.Valid) 
     s₁ = s₂ := by
   rw [CodecEq.setStateBody_eq, CodecEq.setStateBody_eq] at h; exact setstate_injective s₁ s₂ h₁ h₂ h
 
+/-- **C10 about `apply()` AND `SetStateCommand.tobytes` as translated**: from the attributes of the device object to the
+    bytes of the 0x40 body, for every settable state. -/
+theorem setstate_roundtrip_apply_code (s : Spec.DevState) (hv : s.Valid) :
+    ∃ body, CodecEq.applyThenTobytes (devOf s) = .ok body ∧ Spec.decodeSetState body = some s := by
+  rw [CodecEq.applyThenTobytes_eq]; exact setstate_roundtrip s hv
+
 /-! non-vacuity -/
 example : (⟨true, false, 2, 41, 102, 0xC, true, false, true, false, true, false, true, 55, 2⟩ : Spec.DevState).Valid := by
   decide
